@@ -101,7 +101,21 @@ var leads = []deco{
 	{"hash-comment", "# c\n", "", false},
 	{"paren", "(", ")", true},
 	{"version-comment", "/*!40101 ", " */", true},
+	// `--` comment lines whose dashes are followed by a blank, a tab, a newline or CRLF (MySQL:
+	// `--` starts a comment when white space or a control character follows) and whose TEXT
+	// begins with a read or a write keyword, as in mysqldump-style banners (added after
+	// seeded change c22-5). firstExtraLead is the index of the first of them.
+	{"dash-space-select", "-- Select stale rows\n", "", false},
+	{"dash-tab-select", "--\tselect stale rows\n", "", false},
+	{"dash-tab-show", "--\tshow what is stale\n", "", false},
+	{"dash-newline-banner-select", "--\n-- Select stale rows\n--\n", "", false},
+	{"dash-crlf-banner-select", "--\r\n-- Select stale rows\r\n--\r\n", "", false},
+	{"dash-space-delete", "-- delete old rows\n", "", false},
+	{"dash-tab-delete", "--\tdelete old rows\n", "", false},
+	{"dash-newline-banner-delete", "--\n-- Delete old rows\n--\n", "", false},
 }
+
+const firstExtraLead = 12
 
 var cases = []string{"lower", "upper", "mixed"}
 
@@ -621,6 +635,9 @@ func main() {
 					if x != 0 {
 						ndev++
 					}
+				}
+				if r.Quick() && ndev == 2 && d.lead >= firstExtraLead {
+					continue // quick: the keyword-bearing `--` banners only on otherwise plain texts
 				}
 				if r.Quick() && ndev == 2 && pl != places[0] {
 					continue // quick: doubly decorated texts only in the namespace without shard rules
